@@ -46,19 +46,6 @@ def FRP(p):
 def FRS(v):
     return "%s.digits, __CPROVER_object_upto(%s.num, ${MAXD} * ${SZ})" % (v, v)
 
-LOOPS.update({
- "bn_mod_exp_digit": [L("bn_mod_exp_digit", 9,
-    WFP("bn") + " && " + WFS("base"), "exp, " + FRP("bn") + ", " + FRS("base"), "exp",
-    "bn=bn exp=exp base=1::base")],
- "bn_mod_exp": [L("bn_mod_exp", 6,
-    "i <= bits && " + WFP("bn") + " && " + WFS("base"), "i, " + FRP("bn") + ", " + FRS("base"), "bits - i",
-    "bn=bn i=1::i bits=1::bits base=1::base")],
- "bn_exp_digit": [L("bn_exp_digit", 7,
-    WFP("bn") + " && " + WFS("base"), "exp, " + FRP("bn") + ", " + FRS("base"), "exp",
-    "bn=bn exp=exp base=1::base")],
-})
-
-
 # value of a bn_t as unsigned long (W = 8 jobs only, maxd <= 7): used for decreases clauses
 def VALX(acc, maxd, entry=False):
     def fld(f):
@@ -68,6 +55,20 @@ def VALX(acc, maxd, entry=False):
                             for i in range(maxd)) + ")"
 def VALP(p, maxd, entry=False): return VALX(p + "->", maxd, entry)
 def VALS(v, maxd, entry=False): return VALX(v + ".", maxd, entry)
+LOOPS.update({
+ "bn_mod_exp_digit": [L("bn_mod_exp_digit", 9,
+    WFP("bn") + " && " + WFS("base"), "exp, " + FRP("bn") + ", " + FRS("base"), "exp",
+    "bn=bn exp=exp base=1::base")],
+ "bn_mod_exp": [L("bn_mod_exp", 6,
+    "i <= bits && " + WFP("bn") + " && " + WFS("base") + " && (" + VALP("m", 2) + " < 2ul || " + VALP("bn", 2) + " < " + VALP("m", 2) + ")",
+    "i, " + FRP("bn") + ", " + FRS("base"), "bits - i",
+    "bn=bn i=1::i bits=1::bits base=1::base m=m")],
+ "bn_exp_digit": [L("bn_exp_digit", 7,
+    WFP("bn") + " && " + WFS("base"), "exp, " + FRP("bn") + ", " + FRS("base"), "exp",
+    "bn=bn exp=exp base=1::base")],
+})
+
+
 def POW4(B): return "(%s != 0 && (%s & (%s - 1)) == 0 && (%s & 0x5555555555555555ul) != 0)" % (B, B, B, B)
 PAIR = "((ta == bn && tb == &tmp) || (ta == &tmp && tb == bn))"
 
@@ -143,6 +144,11 @@ def compose(fns, maxd=None, variant=None):
     tbl = dict(LOOPS)
     if maxd:
         tbl.update(loops_r3(maxd))
+    if variant == "ms_range":
+        ms = [dict(e) for e in tbl["bn_mod_sqrt"]]
+        ms[1]["invariants"] += " && " + VALP("bn", maxd) + " < " + VALP("m", maxd) + " && " + VALP("m", maxd) + " >= 2ul"
+        ms[1]["symbol_map"] += ";m,bn_mod_sqrt::m"
+        tbl["bn_mod_sqrt"] = ms
     if variant == "inv_value":
         tbl["bn_mod_inv_bin"] = inv_value_loops(maxd)
     return {"functions": [{fn: tbl[fn]} for fn in fns]}
